@@ -78,3 +78,135 @@ def build(rules, nnt, start, prefix, terminals):
             if len(a)>1: conflicts+=1
         action[si]=acts
     return dict(states=states,trans=trans,action=action,conflicts=conflicts,rules=rules,first=first,nullable=nullable)
+
+
+def parse(tab, w):
+    """textbook LR driver on a conflict-free FULL-mode table built by build(): the parse tree of w (as cfg.Oracle builds
+    them: ('t',i) leaves, (lhs, alternative number, kids) nodes) or None when w is not in the language"""
+    rules = tab["rules"]
+    aug = len(rules) - 1
+    altno = {}
+    cnt = {}
+    for idx, (l, r) in enumerate(rules[:aug]):
+        altno[idx] = cnt.get(l, 0)
+        cnt[l] = altno[idx] + 1
+    action, trans = tab["action"], tab["trans"]
+    states = [0]
+    vals = []
+    toks = [("t", x) for x in w] + [EOF_T]
+    i = 0
+    while True:
+        acts = action[states[-1]].get(toks[i])
+        if not acts:
+            return None
+        (a,) = tuple(acts)
+        if a[0] == "s":
+            states.append(a[1])
+            vals.append(toks[i])
+            i += 1
+        elif a[0] == "acc":
+            return vals[-1]
+        else:
+            l, rhs = rules[a[1]]
+            n = len(rhs)
+            kids = vals[len(vals) - n:] if n else []
+            if n:
+                del vals[len(vals) - n:]
+                del states[len(states) - n:]
+            vals.append((l, altno[a[1]], kids))
+            states.append(trans[(states[-1], ("n", l))])
+
+
+def sample_word(rnd, rules, nnt, start, depth, cap):
+    """a word of the language obtained by a random derivation that keeps choosing freely for <depth> levels (so recursive
+    rules nest about that deep) and then finishes by shortest derivations; -> (word, tree) or None (start unproductive)"""
+    INF = 10 ** 9
+    h = {i: INF for i in range(nnt)}
+    ch = True
+    while ch:
+        ch = False
+        for l, r in rules:
+            v = 1 + max([h[s[1]] for s in r if s[0] == "n"] + [0])
+            if v < h[l]:
+                h[l] = v
+                ch = True
+    if h[start] >= INF:
+        return None
+    byl = {}
+    cnt = {}
+    for idx, (l, r) in enumerate(rules):
+        a = cnt.get(l, 0)
+        cnt[l] = a + 1
+        if all(s[0] == "t" or h[s[1]] < INF for s in r):
+            byl.setdefault(l, []).append((a, r, 1 + max([h[s[1]] for s in r if s[0] == "n"] + [0])))
+    size = [0]
+    word = []
+
+    def expand(A, d):
+        alts = byl[A]
+        if d > 0 and size[0] < cap:
+            rec = [x for x in alts if any(s[0] == "n" for s in x[1])]
+            a, r, _ = rnd.choice(rec) if rec and rnd.random() < 0.97 else rnd.choice(alts)
+        else:
+            m = min(x[2] for x in alts)
+            a, r, _ = rnd.choice([x for x in alts if x[2] == m])
+        kids = []
+        for s in r:
+            if s[0] == "t":
+                word.append(s[1])
+                size[0] += 1
+                kids.append(s)
+            else:
+                kids.append(expand(s[1], d - 1))
+        return (A, a, kids)
+    tree = expand(start, depth)
+    return word, tree
+
+
+def prefix_members(tab, w):
+    """[(k, tree)] for every k such that w[:k] is in the language (conflict-free full-mode table): one LR run over w; after
+    every shift the stack is copied and finished with the end marker as lookahead"""
+    rules = tab["rules"]
+    aug = len(rules) - 1
+    altno = {}
+    cnt = {}
+    for idx, (l, r) in enumerate(rules[:aug]):
+        altno[idx] = cnt.get(l, 0)
+        cnt[l] = altno[idx] + 1
+    action, trans = tab["action"], tab["trans"]
+
+    def step(states, vals, tok):
+        """apply reductions for lookahead tok; -> 'shift'/'acc'/None"""
+        while True:
+            acts = action[states[-1]].get(tok)
+            if not acts:
+                return None
+            (a,) = tuple(acts)
+            if a[0] == "s":
+                return a
+            if a[0] == "acc":
+                return a
+            l, rhs = rules[a[1]]
+            n = len(rhs)
+            kids = vals[len(vals) - n:] if n else []
+            if n:
+                del vals[len(vals) - n:]
+                del states[len(states) - n:]
+            vals.append((l, altno[a[1]], kids))
+            states.append(trans[(states[-1], ("n", l))])
+    out = []
+    states, vals = [0], []
+    toks = [("t", x) for x in w]
+    for i in range(len(toks) + 1):
+        s2, v2 = list(states), list(vals)
+        a = step(s2, v2, EOF_T)
+        if a and a[0] == "acc":
+            out.append((i, v2[-1]))
+        if i == len(toks):
+            break
+        a = step(states, vals, toks[i])
+        if not a or a[0] != "s":
+            break
+        states.append(a[1])
+        vals.append(toks[i])
+    return out
